@@ -38,7 +38,7 @@ DEFS = ("-D_GNU_SOURCE -DUSE_LINUX_PROC -DDOTNET_MODULE -DHASH_MODULE -DMACHO_MO
         '-DPACKAGE_STRING="yara-4.5.2" -DPACKAGE_VERSION="4.5.2" -DVERSION="4.5.2"').split()
 
 SAN = ["-fsanitize=address,undefined",
-       "-fno-sanitize=alignment,signed-integer-overflow,shift-base,function",
+       "-fno-sanitize=alignment,signed-integer-overflow,shift-base,function,nonnull-attribute,pointer-overflow",
        "-fno-omit-frame-pointer", "-fno-sanitize-recover=undefined"]
 SMALL = ["-DYR_STRING_CHAINING_THRESHOLD=3", "-DYR_MAX_STRING_MATCHES=8", "-DYR_SLOW_STRING_MATCHES=6",
          "-DRE_MAX_FIBERS=16", "-DYR_RE_SCAN_LIMIT=32", "-DRE_MAX_SPLIT_ID=8"]
